@@ -157,6 +157,16 @@ class BufV:
         return f"<buffer {list(self.parts)!r}>"
 
 
+class RepTxtV:
+    """prefix + body * count + suffix with a count that is not a constant (a format template repeated once per value of a line)"""
+
+    def __init__(self, body, count, prefix=None, suffix=None):
+        self.body, self.count, self.prefix, self.suffix = body, count, prefix or Txt(), suffix or Txt()
+
+    def __repr__(self):
+        return f"<{self.prefix!r} + {self.body!r} * {self.count!r} + {self.suffix!r}>"
+
+
 class GetterV:
     """operator.itemgetter(k) / attrgetter("a") / methodcaller("m", ...): a callable that applies that access to its argument"""
 
@@ -833,6 +843,27 @@ class OP4Eval(AutoEvaluator):
     def binop_values(self, op, a, b, node=None):
         if is_unknown(a) or is_unknown(b):
             return a if is_bad(a) else (b if is_bad(b) else (a if is_unknown(a) else b))
+        if isinstance(op, ast.Add) and (isinstance(a, RepTxtV) or isinstance(b, RepTxtV)):
+            other = as_txt(b if isinstance(a, RepTxtV) else a)
+            if other is None or (isinstance(a, RepTxtV) and isinstance(b, RepTxtV)):
+                return Unknown("concatenation with a repeated text")
+            if isinstance(a, RepTxtV):
+                return RepTxtV(a.body, a.count, a.prefix, a.suffix + other)
+            return RepTxtV(b.body, b.count, other + b.prefix, b.suffix)
+        if isinstance(op, ast.Mod) and isinstance(a, RepTxtV):
+            # (template * n) % tuple(values): one value per repetition - one generic repetition stands for all of them
+            seq = b[0].v if (isinstance(b, tuple) and len(b) == 1 and isinstance(b[0], Star)) else b
+            u = unfn(seq) if is_rat(seq) else None
+            if u is not None and u[0] in ("call:tuple", "call:list") and len(u[1]) == 1:
+                seq = u[1][0]
+            plain = not any(isinstance(p, Lit) and "%" in p.s for p in a.prefix.p + a.suffix.p)
+            if not is_rat(seq) or not plain:
+                return Unknown("repeated template formatted with values the evaluator cannot enumerate")
+            elem, _count = self.generic_elem(seq, ast.Name(id="_", ctx=ast.Store()))
+            body = percent_format(a.body, [elem])
+            if is_unknown(body):
+                return body
+            return a.prefix + body + a.suffix
         if isinstance(op, ast.Add):
             if isinstance(a, PosV) and const_int(b) is not None:
                 return a.shifted(const_int(b))
@@ -863,6 +894,8 @@ class OP4Eval(AutoEvaluator):
                     return F.sym(repr(sx * ny))
                 if isinstance(x, Txt) and ny is not None and 0 <= ny <= 64:
                     return Txt([p for _ in range(ny) for p in x.p])
+                if isinstance(x, Txt) and ny is None and is_rat(y) and not self.is_boolean(y):
+                    return RepTxtV(x, y)
                 if isinstance(x, tuple) and ny is not None and 0 <= ny * len(x) <= 256:
                     return x * ny
         if isinstance(op, ast.Mod):
@@ -945,7 +978,7 @@ class OP4Eval(AutoEvaluator):
                     return Unknown(f"name `{node.id}` is not defined")
             return F.sym(node.id)
         if t is ast.Attribute:
-            d = dotted(node)
+            d = self.canon(dotted(node))
             if d is not None:
                 if d in W.pinned:
                     return W.pinned[d]
@@ -958,7 +991,7 @@ class OP4Eval(AutoEvaluator):
                         return self.call_func(FuncV(fdef), [], {}, node)
                     return FuncV(fdef)
                 root = d.split(".")[0]
-                pre = dotted(node.value)
+                pre = self.canon(dotted(node.value))
                 if root in ("self", W.cls) and d.count(".") == 1 and node.attr in W.class_consts and d not in self.env:
                     return self._ev(W.class_consts[node.attr])
                 if root == "self":
@@ -1078,6 +1111,18 @@ class OP4Eval(AutoEvaluator):
                 if lo is not None and hi is not None and 0 <= lo <= hi <= lo + 64:
                     return [F.fn("idx", u[1][0], F.const(k)) for k in range(lo, hi)]
         return None
+
+    def canon(self, d):
+        """the class reached through the instance or through a class method's first parameter: self.__class__.X, cls.X  ->  OP4.X"""
+        if d is None:
+            return None
+        cls = self.W.cls
+        for pre in ("self.__class__", "cls.__class__"):
+            if d == pre or d.startswith(pre + "."):
+                return cls + d[len(pre):]
+        if (d == "cls" or d.startswith("cls.")) and sym_name(self.env.get("cls")) == "cls":
+            return cls + d[3:]
+        return d
 
     def comprehension(self, node):
         """[elt for target in iterable]: a tuple when the iterable is one (literal table), else one generic element (SeqV)"""
@@ -1270,6 +1315,8 @@ class OP4Eval(AutoEvaluator):
             return Unknown(f"attribute {attr} of a tuple")
         if isinstance(base, (Txt, PackV, BytesV, DtypeV, PosV)):
             return Unknown(f"attribute {attr} of {type(base).__name__}")
+        if is_rat(base) and sym_name(base) == W.cls and (f"{W.cls}.{attr}" in W.table or attr in W.class_consts):
+            return self._ev(ast.Attribute(value=ast.Name(id=W.cls, ctx=ast.Load()), attr=attr, ctx=ast.Load()))
         if is_rat(base):
             if attr == "shape":
                 a = atom_id(base)
@@ -1441,7 +1488,7 @@ class OP4Eval(AutoEvaluator):
     def _call(self, node):
         W = self.W
         f = node.func
-        name = dotted(f)
+        name = self.canon(dotted(f))
         callee = None
         recv = None
         method = None
@@ -1457,7 +1504,7 @@ class OP4Eval(AutoEvaluator):
                 callee = FuncV(W.table[name])
             else:
                 root = name.split(".")[0] if name else None
-                pre = dotted(f.value)
+                pre = self.canon(dotted(f.value))
                 is_const = (isinstance(f.value, ast.Name) and f.value.id in W.consts and f.value.id not in self.locals) or \
                     (isinstance(f.value, ast.Attribute) and f.value.attr in W.class_consts and dotted(f.value.value) in ("self", W.cls))
                 if name is None or root in self.env or root in W.pinned or root == "self" or pre in self.env or pre in W.pinned or is_const:
@@ -1795,6 +1842,12 @@ class OP4Eval(AutoEvaluator):
             return next((x for x in pos[0] if is_unknown(x)), Unknown("join of values that are not packed bytes"))
         if not is_rat(recv):
             return Unknown(f"method {method} of {type(recv).__name__}")
+        if sym_name(recv) == W.cls and f"{W.cls}.{method}" in W.table:
+            # a method reached through the class object (type(self).m, a class kept in a name)
+            key = f"{W.cls}.{method}"
+            if not W.is_opaque(key):
+                return self.call_func(FuncV(W.table[key]), pos, kw, node)
+            return self.builtin_call(key, pos, kw, node)
         # ---- a Rat receiver
         if method == "write" and len(pos) == 1:
             W.emits.append(Emit(recv, self.packed_of(pos[0]) if isinstance(pos[0], TypedArr) else pos[0], tuple(W.frames), node, self.qual))
@@ -2033,6 +2086,8 @@ class OP4Eval(AutoEvaluator):
             if hi is not None and hi <= 0:
                 return -pos[0]
             return F.fn("abs", pos[0])
+        if name == "type" and n == 1 and not kw and is_rat(pos[0]) and sym_name(pos[0]) in ("self", "cls", W.cls):
+            return F.sym(W.cls)
         if name == "bool" and n == 1 and not kw:
             r = self.truth(pos[0])
             if r is not None:
